@@ -86,8 +86,8 @@ func main() {
 			"a key whose single-party counterpart (rlwe.KeyGenerator, same ideal secret, same parameters) fails the same functional test is outside the statement ('as a single-party key would')",
 		},
 		Scenarios:      scenarios,
-		QuickBudget:    140 * time.Second,
-		ThoroughBudget: 20 * time.Minute,
+		QuickBudget:    150 * time.Second,
+		ThoroughBudget: 25 * time.Minute,
 		Expect:         expect,
 	})
 }
